@@ -30,7 +30,7 @@ def worker(task):
 
 def tasks_for(tier):
     base = seed() * 49979687
-    nd = 40 if tier == 'quick' else 400
+    nd = 40 if tier == 'quick' else 2000
     return [(base + i, SCEN[i % len(SCEN)]) for i in range(nd)]
 
 
